@@ -101,7 +101,10 @@ Proof. exact counts_agree_fresh. Qed.
 
 (* --- still refuted on the tree as it stands --- *)
 Theorem inv_step_refuted_cross_container_cache : exists s o, inv_full s = true /\ cache_consistent (fst (step pinned s o)) = false.
-Proof. exists (w_xcache_pre pinned), w_xcache_op. exact w_xcache. Qed.
+Proof. exists (w_xcache_pre pinned), w_xcache_op. pose proof w_xcache; tauto. Qed.
+(* with the proposed repair C15-19 the witness keeps the full invariant *)
+Theorem proposed_repair_closes_cache_witness : inv_full (fst (step fixed (w_xcache_pre fixed) w_xcache_op)) = true.
+Proof. pose proof w_xcache; tauto. Qed.
 
 (* --- regression: the ten sequences that broke the invariant before the repairs in /repo --- *)
 Theorem repaired_witnesses_keep_full_invariant :
